@@ -23,6 +23,8 @@ import Driver.Threads
 import Driver.UsingSalt
 import Driver.Saslprep
 import Driver.VerifyFmtPbkdf
+import Driver.VerifyFmtMisc
+import Driver.VerifyFmtStatic
 /-
 Line protocol driver: `<suite> <op> <args…>` per input line, one result line out.
 Compiled (`lean_exe modeldrv`); nothing imported here touches Mathlib.
@@ -54,6 +56,8 @@ def dispatch (line : String) : String :=
   | "usalt" :: rest => Driver.UsingSalt.handle rest
   | "sasl" :: rest => Driver.Saslprep.handle rest
   | "vfyP" :: rest => Driver.VerifyFmtPbkdf.handle rest
+  | "vfyM" :: rest => Driver.VerifyFmtMisc.handle rest
+  | "vfyS" :: rest => Driver.VerifyFmtStatic.handle rest
   | _ => Driver.bad
 
 partial def loop (h : IO.FS.Stream) (out : IO.FS.Stream) : IO Unit := do
